@@ -288,6 +288,7 @@ def run(seed, n, measures=None, boundary_frac=0.3, empty_frac=0.08):
     bad = C.run_groups('joins_%d' % seed, ['TokenOrdering', 'Filters', 'Joins', 'Api', 'JoinSpec', 'MetaSpec'], groups)
     res = {'evaluations': n, 'distribution': dist, 'differ': [], 'spec_fail': [], 'exceptions': [],
            'nontrivial': sum(1 for c, d in zip(calls, dfs) if is_nontrivial(c, d))}
+    res['failing_calls'] = [calls[gi] for gi in sorted(set(g for g, _ in bad))]
     for (gi, ei) in sorted(bad):
         (res['differ'] if ei == 0 else res['spec_fail']).append(
             {'case': gi, 'which': SPECS[ei],
